@@ -122,6 +122,10 @@ def run(ctx, rep):
     rep.rule('R7', 'all mutating effects reachable from the entry points stay inside this layer\'s path classes')
     rep.rule('R9', 'uncached_layer: constant DeleteLayer callbacks, cache = false')
     rep.not_decided = ['disk contents after the file-system calls', 'the lifecycle restore model', 'concurrent modification']
+    from . import layer_roles
+    from .lib.paths import LayerPaths as _LP
+    ROLES = layer_roles.roles(prog, sl)
+    _LP.sbom_path_fn = ROLES['SBOM_PATH'] or _LP.sbom_path_fn
     E = Effects(prog, sl)
     cl = prog.find_one(CL)
     ul = prog.find_one(UL)
@@ -167,7 +171,7 @@ def run(ctx, rep):
             rep.extra['decision_table'][tag] = summary
             # ---- returned state ------------------------------------------------------------------
             if r == 'invalid-replace':
-                rep.check(o.value[0] == 'recursion' and o.value[1].endswith('struct_api::handling::handle_layer'),
+                rep.check(o.value[0] == 'recursion' and o.value[1] == ROLES['STRUCT_HL'],
                           'R3', tag + '/returns', site_where, 're-dispatches after replacing the metadata',
                           'ReplaceMetadata does not re-dispatch: returns ' + vstr(o.value)[:120])
             else:
@@ -313,8 +317,8 @@ def run(ctx, rep):
               'SBOM_FORMATS lists all %d SbomFormat variants' % len(variants),
               'SBOM_FORMATS %s does not cover the SbomFormat variants %s' % (listed, variants))
     # the removal loop in replace_layer_sboms / delete path iterates that constant (checked where used)
-    sb = prog.fn('libcnb::sbom::cnb_sbom_path')
-    rep.analysed(sb)
+    if ROLES['SBOM_PATH']:
+        rep.analysed(prog.fns[ROLES['SBOM_PATH']])
 
     # ---- R7 confinement ---------------------------------------------------------------------------
     n_mut = 0
@@ -359,7 +363,7 @@ def run(ctx, rep):
               'layer writers create classes %s; the delete table knows DIR, TOML, SBOM' % sorted(classes))
 
     # ---- R9 uncached ------------------------------------------------------------------------------
-    hl = [c for c in ul.calls if c.name and c.name.endswith('struct_api::handling::handle_layer')]
+    hl = [c for c in ul.calls if c.name and c.name == ROLES['STRUCT_HL']]
     if len(hl) != 1:
         rep.unproven('R9', 'dispatch', ul.file, 'uncached_layer does not call handle_layer exactly once')
     else:
@@ -384,7 +388,7 @@ def run(ctx, rep):
         rep.check(lpu.is_ln(ln) and lpu.is_ld(ld), 'R9', 'target', c.where(), 'operates on (self.layers_dir, layer_name)',
                   'uncached_layer dispatches on a different layer: %s / %s' % (vstr(ld), vstr(ln)))
     # cached_layer dispatch arguments
-    hl = [c for c in cl.calls if c.name and c.name.endswith('struct_api::handling::handle_layer')]
+    hl = [c for c in cl.calls if c.name and c.name == ROLES['STRUCT_HL']]
     if len(hl) == 1:
         c = hl[0]
         ln = strip(sl.operand(cl, c.args[3]))
